@@ -249,11 +249,13 @@ impl DcpsDomainParticipant {
             let subscriber_listener_sender = subscriber.listener_sender.clone();
             for data_reader in &mut subscriber.data_reader_list {
                 if let DurationKind::Finite(deadline) = data_reader.qos.deadline.period {
+                    // Each missed period is reported once: the instance is re-armed by one period
                     let missed_instances: Vec<_> = data_reader
                         .instances
-                        .iter()
+                        .iter_mut()
                         .filter_map(|x| {
                             if now - x.last_received_time_stamp() > deadline {
+                                x.rearm_deadline(deadline);
                                 Some(x.handle)
                             } else {
                                 None
